@@ -349,3 +349,4 @@ def run(ctx):
     C01.rule_errprop(ctx, cd, "des", "R-C02-ERRPROP")
     _codec.rule_zero_cost(ctx, pyfront.PyIndex(ctx.root), "R-C02-ZEROCOST")
     _codec.rule_offset_sets(ctx, cd, "des", "R-C02-OFFSET-SET")
+    _codec.rule_padding(ctx, cd, "des", "R-C02-PADDING")
